@@ -16,11 +16,12 @@ RULE = ("random Cartesian triples away from the singular sets (rho>0.1, polar an
         "both directions; refusals: cylindrical<->spherical rebase (vectors, fields), points of another kind. non-trivial = "
         "vector not on a coordinate axis / field depends on >=2 coordinates; distinct = distinct case.")
 RULE = RULE + ' Also: a Cartesian system rotated (random angle, any of the three axes) against the Cartesian system derived from a cylindrical / spherical base system: curvilinear vectors re-expressed in it directly and via the unrotated system equal the own rotated components, dot products agree, the way back via the unrotated system is the identity.'
+RULE = RULE + ' Also: Cartesian float vectors with an exact floating-point zero as second or third component.'
 RULE = RULE + ' Also: cylindrical / spherical vectors with one and two components: dot and magnitude in the system equal those after re-expression in Cartesian coordinates.'
 ASSUMPTIONS = ["vf/geom_ref.py transforms (from the definitions; spherical = (r, azimuth, polar) in this core)"]
 N = {"quick": dict(vectors=320, fields=64), "thorough": dict(vectors=4800, fields=640)}
 MIN_REACH = {"quick": {"rebase_to_cyl": 250, "rebase_to_sph": 250, "roundtrip": 500, "dot_magnitude": 500, "scale": 400,
-                       "from_curvilinear": 400, "field_value": 300, "refusal": 30, "symbolic": 20, "short_curvilinear_vector": 600, "rotated_cartesian": 100, "field_value_short_point": 100},
+                       "from_curvilinear": 400, "field_value": 300, "refusal": 30, "symbolic": 20, "short_curvilinear_vector": 600, "rotated_cartesian": 100, "float_zero_component": 150, "field_value_short_point": 100},
              "thorough": {"rebase_to_cyl": 4000, "roundtrip": 8000, "field_value": 3000}}
 SHARD_TIMEOUT = {"quick": 600, "thorough": 3000}
 
@@ -256,6 +257,34 @@ def rotated_case(r, rec):
             rec.violation(f"rotated-raises:{name}:{type(x).__name__}", f"rotated-system case {case} raised {type(x).__name__}: {str(x)[:100]}", case)
 
 
+def float_zero_case(r, sy, rec):
+    """vectors with a floating-point zero component (thorough seed 8 met one by chance: SymPy cannot multiply a base vector
+    by Float(0.0), so the re-expression crashed on the pinned tree; repaired in /repo)"""
+    import sympy
+    from symplyphysics import Vector
+    p = rand_cart(r)
+    for pos in (2, 1):
+        q = [sympy.Float(float(c)) for c in p]
+        q[pos] = sympy.Float(0.0)
+        pa = [float(c) for c in q]
+        if math.hypot(pa[0], pa[1]) < 0.1 or abs(abs(math.atan2(pa[1], pa[0])) - math.pi) < 0.05:
+            continue
+        case = {"float_zero_at": pos, "a": [str(c) for c in q]}
+        rec.case(case)
+        for name, system, fwd in (("cyl", sy.cyl, G.cart_to_cyl), ("sph", sy.sph, G.cart_to_sph)):
+            rec.hit("float_zero_component")
+            try:
+                w = Vector(q, sy.C).rebase(system)
+                got, back = comps(w), comps(w.rebase(sy.C))
+            except Exception as x:  # pylint: disable=broad-except
+                rec.violation(f"rebase-raises:float-zero:{name}:{type(x).__name__}", f"rebase of {case['a']} (floating-point zero component) to {name} raised {type(x).__name__}: {str(x)[:100]}", case)
+                continue
+            want = fwd(*pa)
+            ok = G.close(got[0], want[0]) and G.angle_close(got[1], want[1]) and (G.close(got[2], want[2]) if name == "cyl" else G.angle_close(got[2], want[2]))
+            if not ok or not all(G.close(x, y) for x, y in zip(back, pa)):
+                rec.violation(f"rebase-value:float-zero:{name}", f"Vector({case['a']}).rebase({name}) = {got}, own transform {want}; back {back}", case)
+
+
 def symbolic_case(sy, rec, r):
     import sympy
     from symplyphysics import Vector
@@ -408,6 +437,8 @@ def work(spec, rec):
                 curvilinear_case(r, sy, rec)
                 if i % 5 == 0:
                     rotated_case(r, rec)
+                if i % 5 == 1:
+                    float_zero_case(r, sy, rec)
         except TimeoutError:
             rec.inconc("watchdog in vector case")
     for i in range(spec["fields"]):
